@@ -101,8 +101,10 @@ class C17(SCheck):
         kernel = {}
         if r.random() < 0.3:
             kernel["max_io"] = r.choice([1, 3, 16])
-        inv = gen.mk_inv(["src"], "dst", driver=driver, workers=workers, block_size=max(bs, 4096), **flags)
-        return {"setup": ops, "steps": [{"inv": inv, "ignore": {"src": sorted(ig)}}], "kernel": kernel, "gitignore": text, "n_ignored": len(ig), "max_events": 300000}
+        sp = r.choice(["src", "src", "src", "./src", "src/", "src//", "src/.", ".//src", "$ROOT/src", "aux/../src", "./aux/.././src"])
+        ops.append(gen.d_op("aux"))
+        inv = gen.mk_inv([sp], "dst", driver=driver, workers=workers, block_size=max(bs, 4096), **flags)
+        return {"setup": ops, "steps": [{"inv": inv, "ignore": {sp: sorted(ig)}}], "kernel": kernel, "gitignore": text, "n_ignored": len(ig), "max_events": 300000}
 
     def evaluate(self, res, verdict, case, step_i, t0, plan):
         f = super().evaluate(res, verdict, case, step_i, t0, plan)
